@@ -18,8 +18,11 @@ RULE = ('Hypothesis generates a sequential program (<= 6 steps) and recording pa
         'happened the finalisation is abort and the serialised store is unchanged; afterwards every recording present '
         'in the store and not flagged incomplete is replayed with the same program and must complete without a '
         'missing-key error, with no wrapped body executed. Non-trivial: fault or termination at step >= 2 after >= 1 '
-        'successful capture, or a fault pair. Distinct = distinct (program, placement, parameters, cassette).')
-ASSUMPTIONS = ['single operation thread (concurrent discards are a C04(b) matter)',
+        'successful capture, or a fault pair. A second part runs threaded programs (2-3 workers that discard, force sampling '
+        'and intercept concurrently) under the deterministic scheduler and requires exactly one finalisation there too. '
+        'Distinct = distinct (program, placement, parameters, cassette).')
+ASSUMPTIONS = ['fault enumeration runs on a single operation thread; concurrent discards from worker threads are '
+               'explored separately under the deterministic scheduler (sampled PCT / random schedules)',
                'spy = thin subclass of the real cassette logging create/save/abort before delegating']
 
 PARAMS = [None, None, {'sampling_rate': 0}, {'sampling_rate': 1}, {'copy_data_on_intercepion': True},
@@ -108,8 +111,41 @@ def enumerate_case(ctx, base):
             'cassette:' + base['cassette']))
 
 
+# ---- exactly-once also when worker threads of the operation discard concurrently (deterministic scheduler)
+
+def finalised_once(spy_log):
+    created = [e[1] for e in spy_log if e[0] == 'create']
+    for rid in created:
+        fin = [e[0] for e in spy_log if e[0] in ('save', 'abort') and e[1] == rid]
+        if len(fin) != 1:
+            raise Violation('recording finalised %d times (%r) when worker threads of the operation discard / force / '
+                            'intercept concurrently' % (len(fin), fin), 'exactly-once-threads')
+
+
+def run_scheduled(ctx, case):
+    from props import C04
+    C04.run_scheduled(ctx, case, extra_check=finalised_once)
+
+
+def scheduled_cases():
+    from props import C04
+
+    @st.composite
+    def cases(draw):
+        c = draw(C04.scheduled_cases())
+        # make several workers discard at the same time
+        workers = c['prog']['steps'][0]['workers']
+        for ws in workers:
+            if ws and draw(st.booleans()):
+                ws[0]['beh'] = 'discard'
+        return c
+    return cases()
+
+
 def replay(ctx, case):
-    if 'faults' in case:
+    if case.get('scheduled'):
+        run_scheduled(ctx, case)
+    elif 'faults' in case:
         check_case(ctx, case)
     else:
         enumerate_case(ctx, case)
@@ -119,4 +155,6 @@ def run(ctx):
     bases = st.fixed_dictionaries({'prog': FR.base_programs(), 'params': st.sampled_from(PARAMS),
                                    'pair_seed': st.integers(0, 10 ** 6), 'seed': st.integers(0, 50),
                                    'cassette': st.sampled_from(['memory', 'memory', 'file', 's3'])})
-    hyp_search(ctx, bases, lambda b: enumerate_case(ctx, b), ctx.pick(30, 200), label='faults')
+    ok = hyp_search(ctx, bases, lambda b: enumerate_case(ctx, b), ctx.pick(30, 200), label='faults')
+    if ok:
+        hyp_search(ctx, scheduled_cases(), lambda c: run_scheduled(ctx, c), ctx.pick(60, 1500), label='scheduled')
